@@ -176,6 +176,11 @@ def run(A, R: Report, thorough: bool):
             R.ok('C12.term', aid, f'{len(dag_nodes(t))} term nodes equal the reference', witness=[pretty_shared(t)[:300]], where=wh)
             continue
         rt = _rebuild(ref[aid]['nodes'], ref[aid]['hash'], {})
+        from ..terms import decision_canon
+        if term_hash(decision_canon(t)) == term_hash(decision_canon(rt)):
+            # the same case analysis spelled differently (flag updated in steps, merged / split / reordered conditions): same function of the same atoms
+            R.ok('C12.term', aid, f'{len(dag_nodes(t))} term nodes; equal to the reference as a decision tree over the same atomic tests', witness=[pretty_shared(t)[:300]], where=wh)
+            continue
         path, a, b = first_difference(t, rt)
         if has_opaque(a) or has_opaque(b):
             R.undecided('C12.term', aid, f'term differs from the reference at {"/".join(path) or "root"} but the difference involves a construct the term engine does not interpret', where=wh)
